@@ -9,7 +9,7 @@
    Proofs/WritersDict.v: wf_db (keys, field names, roles unique up to case; every role has a person -- what the API
    builds), map_ids.  Proofs/WritersTree.v: parts_ok p := reparse_person p = Ok p, yaml_ok, xml_ok. *)
 From Pybtex Require Import Base.Prelude Base.PyChar Base.PyStr Model.BibtexStr Model.Names Model.Scanner Model.BibParser Model.Writers
-  Proofs.Writers Proofs.WritersDict Proofs.WritersTree Proofs.WritersQuote Proofs.WritersPerson Proofs.WritersChain Proofs.WritersField Proofs.WritersName Proofs.WritersBib.
+  Proofs.Writers Proofs.WritersDict Proofs.WritersTree Proofs.WritersQuote Proofs.WritersPerson Proofs.WritersChain Proofs.WritersField Proofs.WritersName Proofs.WritersBib Proofs.WritersNameList Proofs.WritersBibP Proofs.WritersTokens.
 
 (* ---- identifier lower-casing changes nothing but the letter case of keys, entry types, field names, roles *)
 Theorem lower_only_case : forall d, wf_db d -> lower_db d = Ok (map_ids lower d).
@@ -254,3 +254,63 @@ Proof.
     try solve [repeat constructor; repeat split; reflexivity];
     try solve [right; repeat split; vm_compute; reflexivity].
 Qed.
+
+(* ---- FILE LEVEL WITH PERSONS: [bibp_ok enc d] (Proofs/WritersBibP.v) is bib_ok with persons allowed: every role
+   (author / editor in any letter case, a NAME) has at least one person; every person is [name_ok]: [expressible]
+   (plain comma-free tokens, exactly one first-name token, a last name, von part empty or ending with a von token, no
+   last-name token but the final one a von token) and no token is the word "and" in any letter case; the
+   " and "-joined text of the formatted names is brace-balanced, whitespace-normalised and left alone by the encoder.
+   The writer writes a role as one more field; the reader cuts it with split_name_list (re.split on ' and ', proved
+   to hit exactly the separators) and parses each name (bibtex_name_roundtrip_partial), through process_entry, in
+   strict mode, nothing reported.
+   Partial: persons without a first name / braced tokens / special characters, non-normalised values, F18. *)
+Theorem bibtex_roundtrip_persons_partial : forall enc d, bibp_ok enc d -> write_read enc FBib d = Ok (norm_preamble d).
+Proof. exact bibtex_roundtrip_persons_pf. Qed.
+Print Assumptions bibtex_roundtrip_persons_partial.
+
+(* the token conditions are needed: a middle name "and" splits the person in two; a comma inside a token adds a part *)
+Theorem name_and_refuted : exists rd, write_read latex_enc FBib (person_db and_person) = Ok rd /\ rd <> person_db and_person.
+Proof. exact name_and_refuted_pf. Qed.
+Print Assumptions name_and_refuted.
+Theorem name_comma_refuted : exists rd, write_read latex_enc FBib (person_db comma_person) = Ok rd /\ rd <> person_db comma_person.
+Proof. exact name_comma_refuted_pf. Qed.
+Print Assumptions name_comma_refuted.
+
+(* ---- chains of any formats over the domain with persons (tree_ok /\ bibp_ok), preserve_case on.
+   Partial: preserve_case = False over this domain is not proved (it is for the person-free domain: chain_roundtrip_partial) *)
+Theorem chain_roundtrip_persons_partial : forall enc fs d, allp_ok enc d -> chain enc fs true d = Ok (expect fs true d).
+Proof. exact chain_roundtrip_persons_pf. Qed.
+Print Assumptions chain_roundtrip_persons_partial.
+
+Example ex_bibp_ok : bibp_ok latex_enc ex_db /\ wd_entries ex_db <> [] /\
+  write_read latex_enc FBib ex_db = Ok (norm_preamble ex_db) /\ we_persons (hd (mkWE [] [] [] []) (wd_entries ex_db)) <> [].
+Proof.
+  split; [|split; [discriminate|split; [vm_compute; reflexivity|discriminate]]].
+  unfold bibp_ok, bibp_ok_entry, wf_entry, role_ok, name_ok, expressible, wok_field, bib_ok_field, role_fields.
+  repeat match goal with
+         | |- _ /\ _ => split
+         | |- Forall _ _ => constructor
+         | |- NoDup _ => constructor
+         end;
+    try solve [vm_compute; reflexivity]; try discriminate; try solve [eexists; reflexivity];
+    try solve [right; vm_compute; reflexivity]; try solve [left; reflexivity];
+    try solve [right; repeat split; vm_compute; reflexivity];
+    try solve [cbn; intros H; repeat (destruct H as [H|H]; [discriminate H|]); exact H];
+    try solve [intros []]; try solve [split; [discriminate|vm_compute; reflexivity]].
+Qed.
+
+(* ---- person_parts_roundtrip, the statement of DESIGN.md: joining the tokens of each part with one space and
+   re-splitting (Person(first=' '.join(first_names), ...)) is the identity for every person whose tokens are
+   [good_tok'] (Proofs/WritersTokens.v): non-empty, every opened brace closed, no leading / trailing whitespace, and no
+   character that separates at brace level 0 -- whitespace, an unescaped tie, a backslash before a space, where the
+   character after the token is taken to be the joining space (so a token may not END in a backslash:
+   person_parts_backslash_refuted).  Braced groups, special characters, ties inside braces and escaped ties are all
+   allowed.  Rests on the C04 builder's tokenizer_spec_all (split_tex_string = map strip . spec_tokens). With it the
+   YAML / BibTeXML glue theorems (hypothesis parts_ok) cover such persons. *)
+Theorem person_parts_roundtrip : forall p, good_person p -> reparse_person p = Ok p.
+Proof. exact person_parts_roundtrip_pf. Qed.
+Print Assumptions person_parts_roundtrip.
+
+Example ex_good_person : good_person braced_person /\ p_first braced_person = [s2l "{\""O}z"] /\
+  p_middle braced_person = [s2l "{A B}"; s2l "a\~b"] /\ p_last braced_person = [s2l "{B and N}"].
+Proof. split; [exact braced_person_good|repeat split]. Qed.
